@@ -985,6 +985,12 @@ def python_traps(rep, prog, qnames, rule="TRAP"):
                 bad += 1
                 rep.bad(rule + ".none-returning", fwhere(f, node), "`%s`: .%s() works in place and returns None - the name on the left is None afterwards" % (
                     norm(node)[:80], node.value.func.attr))
+            if isinstance(node, ast.Call) and (dotted_of(node.func) or "").split(".")[-1] == "cartesian":
+                n += 1
+                if not (any(k.arg in ("dtype", "out") for k in node.keywords) or len(node.args) >= 2 or f.name == "cartesian"):
+                    bad += 1
+                    rep.bad(rule + ".cartesian-dtype", fwhere(f, node), "cartesian(...) without dtype builds an int8 array (the helper's default is np.byte): values and anything "
+                            "computed from them (node labels >= 128, flat indices i * p + j) wrap around silently")
             if isinstance(node, (ast.If, ast.IfExp, ast.While)):
                 approx = [c for c in ast.walk(node.test) if isinstance(c, ast.Call) and (dotted_of(c.func) or "").split(".")[-1] in ("isclose", "allclose")]
                 if approx:
